@@ -317,11 +317,16 @@ def h_lists_paths_userdata(sx):
         cmd_define = sx.bool("cmd_define")
         junit = sx.bool("junit")
         nocapture = sx.bool("no_capture")
+        # outfiles: "-" (stdout) for the first formatter, a file for the second.  (Only with the config file in the working
+        # directory: from another directory behave resolves "-" like a relative path, "<dir>/-"; whether "-" in a config
+        # file means stdout is not part of the statement.)
+        stdout_first = sx.bool("stdout_outfile_first") if not in_home else False
         if toml:
-            lines = ['paths = ["features/a", "features/b"]', 'format = ["plain", "progress"]', 'outfiles = ["o1.txt"]', 'name = ["n1", "n2", "n3"]',
+            lines = ['paths = ["features/a", "features/b"]', 'format = ["plain", "progress"]',
+                     'outfiles = ["-", "o1.txt"]' if stdout_first else 'outfiles = ["o1.txt"]', 'name = ["n1", "n2", "n3"]',
                      'tags = ["@x", "@y"]', "[tool.behave.userdata]", 'foo = "file"', 'keep = "k"', 'MixedCase = "V"', 'UPPER_NAME = "u"']
         else:
-            lines = ["paths = features/a\n  features/b", "format = plain\n  progress", "outfiles = o1.txt", "name = n1\n  n2\n  n3",
+            lines = ["paths = features/a\n  features/b", "format = plain\n  progress", "outfiles = -\n  o1.txt" if stdout_first else "outfiles = o1.txt", "name = n1\n  n2\n  n3",
                      "tags = @x\n  @y", "[behave.userdata]", "foo = file", "keep = k", "MixedCase = V", "UPPER_NAME = u"]
         args = []
         if cmd_tags:
@@ -335,13 +340,19 @@ def h_lists_paths_userdata(sx):
         _fresh_class_state()
         cfg = _build(tmp, home, lines, args, toml=bool(toml), in_home=bool(in_home))
         base = os.path.realpath(home if in_home else tmp)
-        det = {"in_home": bool(in_home), "toml": bool(toml), "args": args}
+        det = {"in_home": bool(in_home), "toml": bool(toml), "args": args, "stdout_outfile_first": bool(stdout_first)}
         rp = lambda x: os.path.realpath(x if os.path.isabs(x) else os.path.join(tmp, x))
         sx.check([rp(x) for x in cfg.paths] == [os.path.join(base, "features/a"), os.path.join(base, "features/b")], "C20.file-paths-relative-to-config-file",
                  detail=dict(det, got=cfg.paths, base=base))
-        outs = [rp(o.name) for o in cfg.outputs if o.name]
-        sx.check(outs[:2] == [os.path.join(base, "o1.txt"), os.path.join(base, "progress.output")], "C20.file-outfiles-relative-to-config-file",
-                 detail=dict(det, got=outs, base=base))
+        if stdout_first:
+            # formatters and outfiles are paired by position: plain -> stdout, progress -> o1.txt
+            outs = [rp(o.name) if o.name else None for o in cfg.outputs]
+            sx.check(outs[:2] == [None, os.path.join(base, "o1.txt")], "C20.format-outfiles-paired-by-position",
+                     detail=dict(det, got=outs, base=base))
+        else:
+            outs = [rp(o.name) for o in cfg.outputs if o.name]
+            sx.check(outs[:2] == [os.path.join(base, "o1.txt"), os.path.join(base, "progress.output")], "C20.file-outfiles-relative-to-config-file",
+                     detail=dict(det, got=outs, base=base))
         sx.check(cfg.format[:2] == ["plain", "progress"], "C20.file-list-order-kept", detail=dict(det, got=cfg.format))
         sx.check(cfg.name == ["n1", "n2", "n3"], "C20.file-list-order-kept", detail=dict(det, got=cfg.name))
         if cmd_tags:
